@@ -840,7 +840,9 @@ func genC18(r *rand.Rand, tier string, env *Env) []Case {
 		case 4:
 			arg = digits(pick(r, []int{0, 1, 5, 7, 12}))
 		case 5:
-			arg = id + "-chain" + pick(r, []string{"", "x", "-1", "256", "255", "0", "007", "99999999999999999999999", "1.5", "٣"})
+			arg = id + "-chain" + pick(r, []string{"", "x", "-1", "256", "255", "0", "007", "99999999999999999999999", "1.5", "٣",
+				// decimal, whatever the leading zeros: 08 and 09 are 8 and 9, 010 is ten, 0377 is above 255
+				"08", "09", "010", "0012", "00011", "0256", "0300", "0377", "0255", "00255"})
 		case 6:
 			arg = id + pick(r, []string{".raa", ".r", ".ra.ra", "-chain1.raX", " ", "-chain1-chain2", ".RA", "-Chain1", "x", "xra", "-ra", "7ra", "-chain2-ra", "-chain25ra", "-chain2xra", "ra", ".ra\n"})
 		case 7:
@@ -861,6 +863,7 @@ func genC18(r *rand.Rand, tier string, env *Env) []Case {
 			// (contents whose first and last bytes are white space that belongs to an entry: the same bytes on stdin mean the same)
 			"regex-assembly/942100-chain01.ra": []byte("leadingzero\nselect \n"), "regex-assembly/942100-chain007.ra": []byte("\fbond\ndelta\n"), "regex-assembly/942100-chain7.ra": []byte("seven\nunion\t"),
 			"regex-assembly/942100-chain0.ra": []byte("zero\nlast\u00a0\n\n"), "regex-assembly/942100-chain19.ra": []byte("\u2003nineteen\nx \n \n"),
+			"regex-assembly/942100-chain08.ra": []byte("eight\n"), "regex-assembly/942100-chain010.ra": []byte("ten\n"), "regex-assembly/942100-chain0377.ra": []byte("toolarge377\n"),
 			"regex-assembly/942100xra.ra": []byte("junkx\n"), "regex-assembly/942100-ra.ra": []byte("junkdash\n"), "regex-assembly/9421007ra.ra": []byte("junk7\n"),
 			"regex-assembly/942100-chain1-ra.ra": []byte("junkc\n"), "regex-assembly/942100-chain25ra.ra": []byte("junk25\n"), "regex-assembly/942100-chain1xra.ra": []byte("junk1x\n"),
 			"rules/REQUEST-942-X.conf": []byte("SecRule ARGS \"@rx a\" \\\n    \"id:942100,\\\n    chain\"\n    SecRule ARGS \"@rx b\" \\\n    \"t:none\"\n")}
@@ -873,7 +876,8 @@ func genC18(r *rand.Rand, tier string, env *Env) []Case {
 	exs := []ex{{"942100", "regex-assembly/942100.ra"}, {"942100.ra", "regex-assembly/942100.ra"}, {"942100-chain1", "regex-assembly/942100-chain1.ra"},
 		{"942100-chain1.ra", "regex-assembly/942100-chain1.ra"}, {"942100-chain255", "regex-assembly/942100-chain255.ra"}, {"942100-chain01", "regex-assembly/942100-chain01.ra"},
 		{"942100-chain007.ra", "regex-assembly/942100-chain007.ra"}, {"942100-chain7", "regex-assembly/942100-chain7.ra"}, {"942100-chain0", "regex-assembly/942100-chain0.ra"},
-		{"942100-chain19.ra", "regex-assembly/942100-chain19.ra"},
+		{"942100-chain19.ra", "regex-assembly/942100-chain19.ra"}, {"942100-chain08", "regex-assembly/942100-chain08.ra"}, {"942100-chain010.ra", "regex-assembly/942100-chain010.ra"},
+		{"942100-chain0377", ""}, {"942100-chain0256.ra", ""},
 		{"942100-chain256", ""}, {"942100-chain256.ra", ""}, {"94210", ""}, {"9421000", ""}, {"942100-chain", ""}, {"942100.raa", ""}, {"942100-chain300", ""}, {"942100-chain99999999999999999999", ""},
 		// path-like arguments: the argument is a rule id, never a path to the assembly file
 		{"x/942100.ra", ""}, {"../942100-chain1", ""}, {"942100/", ""}, {"999999/942100", ""}, {"/tmp/elsewhere/942100.ra", ""}, {"./942100", ""},
@@ -1168,6 +1172,18 @@ func oracleC17(p *Pair, env *Env, a [][]byte) *Failure {
 		if rd.Status != "ok" || string(rd.Out[0]) != long+"b" {
 			return fail("compare after update does not read the long operand back", rd.Status)
 		}
+	case "format-after-header":
+		// the standard header directly followed by content (no empty line between): every content line is carried through
+		in := join(append([]string{"##! Please refer to the documentation at", "##! https://coreruleset.org/docs/development/regex_assembly/."}, place([]string{"zzq1", "##!> assemble", "  zzq3", "##!<", "zzq2"}, long)...))
+		f := p.Impl(Op{"format.file", [][]byte{in}}, env.timeout)
+		if f.Status != "ok" {
+			return nil
+		}
+		for _, w := range append(companions([]string{"zzq1", "zzq2", "zzq3", "##!<"}, pos), long) {
+			if !bytes.Contains(f.Out[0], []byte(w)) {
+				return fail("line "+w[:minInt(len(w), 12)]+" is missing from the formatted file (header without an empty line after it)", "")
+			}
+		}
 	case "format":
 		in := join(place([]string{"##!> assemble", "  zzq1", "##!<", "zzq2"}, long))
 		f := p.Impl(Op{"format.file", [][]byte{in}}, env.timeout)
@@ -1211,7 +1227,7 @@ func genC17(r *rand.Rand, tier string, env *Env) []Case {
 		lengths = []int{1, 4095, 4096, 65534, 65535, 65536, 65537, 65538, 100000, 131072, 131073, 262143, 262144, 262145, 300000, 524288, 1048576, 1048577, 4194305}
 	}
 	var cases []Case
-	sites := []string{"generate", "generate-defined", "generate-include-defined", "generate-include-twice", "generate-include", "generate-include-prefixed", "generate-include-suffixed", "generate-nested-include", "generate-replace-suffixes", "generate-include-except", "generate-exclude-file", "format", "renumber", "copyright", "rules-file"}
+	sites := []string{"format-after-header", "generate", "generate-defined", "generate-include-defined", "generate-include-twice", "generate-include", "generate-include-prefixed", "generate-include-suffixed", "generate-nested-include", "generate-replace-suffixes", "generate-include-except", "generate-exclude-file", "format", "renumber", "copyright", "rules-file"}
 	for _, total := range []int{1<<20 - 4096, 1<<20 + 4096, 3 << 20} {
 		cases = append(cases, Case{Kind: "input-total-size", Oracles: []Op{{"c17.carry", [][]byte{[]byte("stdin-total"), []byte(fmt.Sprint(total)), []byte("middle"), []byte("1")}}}})
 	}
